@@ -15,6 +15,7 @@ cd "$VC"
 for id in "$@"; do
   echo "=== $id ($TIER) against $(basename "$PATCH")"
   VERIF_REPO="$WT" ./check "$id" --tier "$TIER" 2>&1 | tail -4
+  if [ -n "${SEEDRUN_KEEP:-}" ]; then mkdir -p "$SEEDRUN_KEEP"; for r in replays/$id-*.json; do [ -f "$r" ] && cp "$r" "$SEEDRUN_KEEP/"; done; fi
   for r in replays/$id-*.json; do
     [ -f "$r" ] && python3 - "$r" <<'PY'
 import json,sys
